@@ -105,6 +105,14 @@ def run(ctx):
         specs.append(flowcheck.prepare(dict(tag="C09/d%d" % len(specs), certs=certs, attempts=1, rate_limits=rls, timeout=300,
                                             endpoints={"A": {"rate_limits": [x["name"] for x in rls], "script": script}},
                                             meta={"family": "daemon", "certs": n_certs, "limits": lim})))
+    # requests whose answer never comes (the CA has read them: they count) followed by more traffic on the endpoint
+    for n_certs, lim, script in ((3, [(2, 1)], [{"kind": "newOrder", "nth": 1, "fault": "drop_after", "repeat": 2}, {"kind": "newAccount", "nth": 1, "fault": "drop_after", "repeat": 1}]),
+                                 (4, [(1, 1), (3, 4)], [{"kind": "directory", "nth": 2, "fault": "drop_after", "repeat": 2}, {"kind": "authz", "nth": 1, "fault": "drop_after", "repeat": 1}])):
+        rls = [{"name": "rl%d" % k, "number": n, "period": "%ds" % p} for k, (n, p) in enumerate(lim)]
+        certs = [simple_cert("rd%d" % j) for j in range(n_certs)]
+        specs.append(flowcheck.prepare(dict(tag="C09/d%d" % len(specs), certs=certs, attempts=2, rate_limits=rls, timeout=300,
+                                            endpoints={"A": {"rate_limits": [x["name"] for x in rls], "script": script}},
+                                            meta={"family": "daemon, unanswered requests", "certs": n_certs, "limits": lim})))
     results = flows.run_many(specs, workers=3)
     base = len(outs)
     nreq = 0
